@@ -1,0 +1,8 @@
+//go:build verif
+// +build verif
+
+package anndb
+
+import "sync"
+
+var verifTransportsMu sync.Mutex
